@@ -74,3 +74,9 @@ package core
 //@ func loadFromFlagSet
 //@   prop C20
 //@   call (*v2.Koanf).Load #1 requires [flags-loaded-only-without-a-secret-on-the-command-line] isNilIface(err) && did(call (*pflag.FlagSet).VisitAll #1) && arg(call (*pflag.FlagSet).VisitAll #1, 0) == flags
+
+// ---- C20: configuration keys that moved stop start-up in either mode: a configuration in which ANY of the three
+// network.{truststorefile,certkeyfile,certfile} keys is still set is never loaded successfully ----
+//@ func (*ServerConfig).Load
+//@   prop C20
+//@   ensures [moved-keys-stop-start-up] isNilIface(err) ==> ngc.LegacyTLS.TrustStoreFile == "" && ngc.LegacyTLS.CertKeyFile == "" && ngc.LegacyTLS.CertFile == ""
